@@ -398,6 +398,64 @@ where
     }
 }
 
+/// Verification hooks (add-only, compiled only with `--cfg p2panda_p2panda_verif`): constructors
+/// over a caller-supplied gossip handle / subscription and read accessors, reachable through the
+/// public stream types.
+#[cfg(p2panda_p2panda_verif)]
+mod verif_hooks {
+    use super::*;
+
+    impl<M> EphemeralStreamPublisher<M> {
+        /// Publisher signing with `signing_key` and publishing into `handle`; the publisher's clock
+        /// starts at `HybridTimestamp::now()` exactly like in `ephemeral_stream`.
+        pub fn verif_new(
+            topic: Topic,
+            signing_key: SigningKey,
+            store: p2panda_store::SqliteStore,
+            handle: GossipHandle,
+        ) -> Self {
+            let forge = OperationForge::from_signing_key(signing_key, store);
+            Self {
+                topic,
+                forge,
+                inner: handle,
+                timestamp: Arc::new(Mutex::new(HybridTimestamp::now())),
+                _marker: PhantomData,
+            }
+        }
+    }
+
+    impl<M> EphemeralStreamSubscription<M> {
+        pub fn verif_new(topic: Topic, inner: GossipSubscription) -> Self {
+            Self {
+                topic,
+                inner,
+                _marker: PhantomData,
+            }
+        }
+    }
+
+    impl<M> EphemeralMessage<M>
+    where
+        M: Serialize + for<'a> Deserialize<'a>,
+    {
+        /// Both parts of the message's hybrid timestamp.
+        pub fn verif_hybrid_timestamp(&self) -> HybridTimestamp {
+            self.inner.timestamp
+        }
+
+        /// `WrappedMessage::from_bytes` with the error reduced to its kind.
+        pub fn verif_from_bytes(topic: Topic, bytes: &[u8]) -> Result<Self, &'static str> {
+            match WrappedMessage::from_bytes(bytes) {
+                Ok(inner) => Ok(Self { topic, inner }),
+                Err(WrappedMessageError::UnsupportedVersion(_)) => Err("version"),
+                Err(WrappedMessageError::InvalidEncoding(_)) => Err("encoding"),
+                Err(WrappedMessageError::InvalidSignature) => Err("signature"),
+            }
+        }
+    }
+}
+
 #[cfg(test)]
 mod tests {
     use p2panda_core::SigningKey;
